@@ -42,17 +42,24 @@ Record qshared := mkSh {
   nextid : nat;
   clog : list cact;             (* newest first *)
   (* ghost ledger *)
-  g_enq : list cevt; g_disp : list (nat * cevt); g_taken : list (nat * cevt); g_cleared : list cevt
+  g_enq : list cevt; g_disp : list (nat * cevt); g_taken : list (nat * cevt); g_cleared : list cevt;
+  g_settled : list cevt;        (* events whose enqueue has put them into queueList (newest first) *)
+  g_putbacks : nat              (* how many times processIf / processUntil have put events back *)
 }.
 
 Record qlocals := mkLo {
   ltemp : list cevt; lkept : list cevt; lidle : nat; lreg : Z;
   lb : bool; lbe : bool; lres : bool; lslot : bool; ltimedout : bool;
   lev : option cevt;            (* the event being enqueued, not yet in queueList *)
-  lshow : option cevt           (* copy of the event handed to the caller by take/peek, for the log *)
+  lshow : option cevt;          (* copy of the event handed to the caller by take/peek, for the log *)
+  (* ghosts *)
+  lheld : nat;                  (* processing guards (increments of queueEmptyCounter) this call holds *)
+  lsnap : list cevt;            (* emptyQueue(): the events that were settled when the call began *)
+  lseen : bool;                 (* emptyQueue(): the list test has found queueList empty *)
+  ltaking : bool                (* takeEvent / clearEvents: the events in ltemp have been removed from the queue for good *)
 }.
 
-Definition lo0 : qlocals := mkLo [] [] 0 0 false false false false false None None.
+Definition lo0 : qlocals := mkLo [] [] 0 0 false false false false false None None 0 [] false false.
 
 Definition pverdict (p : nat) (e : cevt) : bool := Z.even (Z.of_nat p + cea e).
 
@@ -69,29 +76,36 @@ Inductive instr :=
 | IDone.                         (* a call without result ends *)
 
 (* ---------- field updates ---------- *)
-Definition sh_ql sh v := mkSh v (fl sh) (cec sh) (cnc sh) (oqm sh) (ofm sh) (nextid sh) (clog sh) (g_enq sh) (g_disp sh) (g_taken sh) (g_cleared sh).
-Definition sh_fl sh v := mkSh (ql sh) v (cec sh) (cnc sh) (oqm sh) (ofm sh) (nextid sh) (clog sh) (g_enq sh) (g_disp sh) (g_taken sh) (g_cleared sh).
-Definition sh_ec sh v := mkSh (ql sh) (fl sh) v (cnc sh) (oqm sh) (ofm sh) (nextid sh) (clog sh) (g_enq sh) (g_disp sh) (g_taken sh) (g_cleared sh).
-Definition sh_nc sh v := mkSh (ql sh) (fl sh) (cec sh) v (oqm sh) (ofm sh) (nextid sh) (clog sh) (g_enq sh) (g_disp sh) (g_taken sh) (g_cleared sh).
-Definition sh_oqm sh v := mkSh (ql sh) (fl sh) (cec sh) (cnc sh) v (ofm sh) (nextid sh) (clog sh) (g_enq sh) (g_disp sh) (g_taken sh) (g_cleared sh).
-Definition sh_ofm sh v := mkSh (ql sh) (fl sh) (cec sh) (cnc sh) (oqm sh) v (nextid sh) (clog sh) (g_enq sh) (g_disp sh) (g_taken sh) (g_cleared sh).
-Definition sh_log sh e := mkSh (ql sh) (fl sh) (cec sh) (cnc sh) (oqm sh) (ofm sh) (nextid sh) (e :: clog sh) (g_enq sh) (g_disp sh) (g_taken sh) (g_cleared sh).
-Definition sh_enq sh e := mkSh (ql sh) (fl sh) (cec sh) (cnc sh) (oqm sh) (ofm sh) (S (nextid sh)) (clog sh) (e :: g_enq sh) (g_disp sh) (g_taken sh) (g_cleared sh).
-Definition sh_disp sh t e := mkSh (ql sh) (fl sh) (cec sh) (cnc sh) (oqm sh) (ofm sh) (nextid sh) (CDisp t (cek e) (cea e) :: clog sh) (g_enq sh) ((t, e) :: g_disp sh) (g_taken sh) (g_cleared sh).
-Definition sh_take sh t e := mkSh (ql sh) (fl sh) (cec sh) (cnc sh) (oqm sh) (ofm sh) (nextid sh) (clog sh) (g_enq sh) (g_disp sh) ((t, e) :: g_taken sh) (g_cleared sh).
-Definition sh_clear sh es := mkSh (ql sh) (fl sh) (cec sh) (cnc sh) (oqm sh) (ofm sh) (nextid sh) (clog sh) (g_enq sh) (g_disp sh) (g_taken sh) (es ++ g_cleared sh).
+Definition sh_ql sh v := mkSh v (fl sh) (cec sh) (cnc sh) (oqm sh) (ofm sh) (nextid sh) (clog sh) (g_enq sh) (g_disp sh) (g_taken sh) (g_cleared sh) (g_settled sh) (g_putbacks sh).
+Definition sh_fl sh v := mkSh (ql sh) v (cec sh) (cnc sh) (oqm sh) (ofm sh) (nextid sh) (clog sh) (g_enq sh) (g_disp sh) (g_taken sh) (g_cleared sh) (g_settled sh) (g_putbacks sh).
+Definition sh_ec sh v := mkSh (ql sh) (fl sh) v (cnc sh) (oqm sh) (ofm sh) (nextid sh) (clog sh) (g_enq sh) (g_disp sh) (g_taken sh) (g_cleared sh) (g_settled sh) (g_putbacks sh).
+Definition sh_nc sh v := mkSh (ql sh) (fl sh) (cec sh) v (oqm sh) (ofm sh) (nextid sh) (clog sh) (g_enq sh) (g_disp sh) (g_taken sh) (g_cleared sh) (g_settled sh) (g_putbacks sh).
+Definition sh_oqm sh v := mkSh (ql sh) (fl sh) (cec sh) (cnc sh) v (ofm sh) (nextid sh) (clog sh) (g_enq sh) (g_disp sh) (g_taken sh) (g_cleared sh) (g_settled sh) (g_putbacks sh).
+Definition sh_ofm sh v := mkSh (ql sh) (fl sh) (cec sh) (cnc sh) (oqm sh) v (nextid sh) (clog sh) (g_enq sh) (g_disp sh) (g_taken sh) (g_cleared sh) (g_settled sh) (g_putbacks sh).
+Definition sh_log sh e := mkSh (ql sh) (fl sh) (cec sh) (cnc sh) (oqm sh) (ofm sh) (nextid sh) (e :: clog sh) (g_enq sh) (g_disp sh) (g_taken sh) (g_cleared sh) (g_settled sh) (g_putbacks sh).
+Definition sh_enq sh e := mkSh (ql sh) (fl sh) (cec sh) (cnc sh) (oqm sh) (ofm sh) (S (nextid sh)) (clog sh) (e :: g_enq sh) (g_disp sh) (g_taken sh) (g_cleared sh) (g_settled sh) (g_putbacks sh).
+Definition sh_disp sh t e := mkSh (ql sh) (fl sh) (cec sh) (cnc sh) (oqm sh) (ofm sh) (nextid sh) (CDisp t (cek e) (cea e) :: clog sh) (g_enq sh) ((t, e) :: g_disp sh) (g_taken sh) (g_cleared sh) (g_settled sh) (g_putbacks sh).
+Definition sh_take sh t e := mkSh (ql sh) (fl sh) (cec sh) (cnc sh) (oqm sh) (ofm sh) (nextid sh) (clog sh) (g_enq sh) (g_disp sh) ((t, e) :: g_taken sh) (g_cleared sh) (g_settled sh) (g_putbacks sh).
+Definition sh_settle sh e := mkSh (ql sh) (fl sh) (cec sh) (cnc sh) (oqm sh) (ofm sh) (nextid sh) (clog sh) (g_enq sh) (g_disp sh) (g_taken sh) (g_cleared sh) (e :: g_settled sh) (g_putbacks sh).
+Definition sh_putback sh := mkSh (ql sh) (fl sh) (cec sh) (cnc sh) (oqm sh) (ofm sh) (nextid sh) (clog sh) (g_enq sh) (g_disp sh) (g_taken sh) (g_cleared sh) (g_settled sh) (S (g_putbacks sh)).
+Definition sh_clear sh es := mkSh (ql sh) (fl sh) (cec sh) (cnc sh) (oqm sh) (ofm sh) (nextid sh) (clog sh) (g_enq sh) (g_disp sh) (g_taken sh) (es ++ g_cleared sh) (g_settled sh) (g_putbacks sh).
 
-Definition lo_temp lo v := mkLo v (lkept lo) (lidle lo) (lreg lo) (lb lo) (lbe lo) (lres lo) (lslot lo) (ltimedout lo) (lev lo) (lshow lo).
-Definition lo_kept lo v := mkLo (ltemp lo) v (lidle lo) (lreg lo) (lb lo) (lbe lo) (lres lo) (lslot lo) (ltimedout lo) (lev lo) (lshow lo).
-Definition lo_idle lo v := mkLo (ltemp lo) (lkept lo) v (lreg lo) (lb lo) (lbe lo) (lres lo) (lslot lo) (ltimedout lo) (lev lo) (lshow lo).
-Definition lo_reg lo v := mkLo (ltemp lo) (lkept lo) (lidle lo) v (lb lo) (lbe lo) (lres lo) (lslot lo) (ltimedout lo) (lev lo) (lshow lo).
-Definition lo_b lo v := mkLo (ltemp lo) (lkept lo) (lidle lo) (lreg lo) v (lbe lo) (lres lo) (lslot lo) (ltimedout lo) (lev lo) (lshow lo).
-Definition lo_be lo v := mkLo (ltemp lo) (lkept lo) (lidle lo) (lreg lo) (lb lo) v (lres lo) (lslot lo) (ltimedout lo) (lev lo) (lshow lo).
-Definition lo_res lo v := mkLo (ltemp lo) (lkept lo) (lidle lo) (lreg lo) (lb lo) (lbe lo) v (lslot lo) (ltimedout lo) (lev lo) (lshow lo).
-Definition lo_slot lo v := mkLo (ltemp lo) (lkept lo) (lidle lo) (lreg lo) (lb lo) (lbe lo) (lres lo) v (ltimedout lo) (lev lo) (lshow lo).
-Definition lo_to lo v := mkLo (ltemp lo) (lkept lo) (lidle lo) (lreg lo) (lb lo) (lbe lo) (lres lo) (lslot lo) v (lev lo) (lshow lo).
-Definition lo_ev lo v := mkLo (ltemp lo) (lkept lo) (lidle lo) (lreg lo) (lb lo) (lbe lo) (lres lo) (lslot lo) (ltimedout lo) v (lshow lo).
-Definition lo_show lo v := mkLo (ltemp lo) (lkept lo) (lidle lo) (lreg lo) (lb lo) (lbe lo) (lres lo) (lslot lo) (ltimedout lo) (lev lo) v.
+Definition lo_temp lo v := mkLo v (lkept lo) (lidle lo) (lreg lo) (lb lo) (lbe lo) (lres lo) (lslot lo) (ltimedout lo) (lev lo) (lshow lo) (lheld lo) (lsnap lo) (lseen lo) (ltaking lo).
+Definition lo_kept lo v := mkLo (ltemp lo) v (lidle lo) (lreg lo) (lb lo) (lbe lo) (lres lo) (lslot lo) (ltimedout lo) (lev lo) (lshow lo) (lheld lo) (lsnap lo) (lseen lo) (ltaking lo).
+Definition lo_idle lo v := mkLo (ltemp lo) (lkept lo) v (lreg lo) (lb lo) (lbe lo) (lres lo) (lslot lo) (ltimedout lo) (lev lo) (lshow lo) (lheld lo) (lsnap lo) (lseen lo) (ltaking lo).
+Definition lo_reg lo v := mkLo (ltemp lo) (lkept lo) (lidle lo) v (lb lo) (lbe lo) (lres lo) (lslot lo) (ltimedout lo) (lev lo) (lshow lo) (lheld lo) (lsnap lo) (lseen lo) (ltaking lo).
+Definition lo_b lo v := mkLo (ltemp lo) (lkept lo) (lidle lo) (lreg lo) v (lbe lo) (lres lo) (lslot lo) (ltimedout lo) (lev lo) (lshow lo) (lheld lo) (lsnap lo) (lseen lo) (ltaking lo).
+Definition lo_be lo v := mkLo (ltemp lo) (lkept lo) (lidle lo) (lreg lo) (lb lo) v (lres lo) (lslot lo) (ltimedout lo) (lev lo) (lshow lo) (lheld lo) (lsnap lo) (lseen lo) (ltaking lo).
+Definition lo_res lo v := mkLo (ltemp lo) (lkept lo) (lidle lo) (lreg lo) (lb lo) (lbe lo) v (lslot lo) (ltimedout lo) (lev lo) (lshow lo) (lheld lo) (lsnap lo) (lseen lo) (ltaking lo).
+Definition lo_slot lo v := mkLo (ltemp lo) (lkept lo) (lidle lo) (lreg lo) (lb lo) (lbe lo) (lres lo) v (ltimedout lo) (lev lo) (lshow lo) (lheld lo) (lsnap lo) (lseen lo) (ltaking lo).
+Definition lo_to lo v := mkLo (ltemp lo) (lkept lo) (lidle lo) (lreg lo) (lb lo) (lbe lo) (lres lo) (lslot lo) v (lev lo) (lshow lo) (lheld lo) (lsnap lo) (lseen lo) (ltaking lo).
+Definition lo_ev lo v := mkLo (ltemp lo) (lkept lo) (lidle lo) (lreg lo) (lb lo) (lbe lo) (lres lo) (lslot lo) (ltimedout lo) v (lshow lo) (lheld lo) (lsnap lo) (lseen lo) (ltaking lo).
+Definition lo_show lo v := mkLo (ltemp lo) (lkept lo) (lidle lo) (lreg lo) (lb lo) (lbe lo) (lres lo) (lslot lo) (ltimedout lo) (lev lo) v (lheld lo) (lsnap lo) (lseen lo) (ltaking lo).
+
+Definition lo_held lo v := mkLo (ltemp lo) (lkept lo) (lidle lo) (lreg lo) (lb lo) (lbe lo) (lres lo) (lslot lo) (ltimedout lo) (lev lo) (lshow lo) v (lsnap lo) (lseen lo) (ltaking lo).
+Definition lo_snap lo v := mkLo (ltemp lo) (lkept lo) (lidle lo) (lreg lo) (lb lo) (lbe lo) (lres lo) (lslot lo) (ltimedout lo) (lev lo) (lshow lo) (lheld lo) v (lseen lo) (ltaking lo).
+Definition lo_seen lo v := mkLo (ltemp lo) (lkept lo) (lidle lo) (lreg lo) (lb lo) (lbe lo) (lres lo) (lslot lo) (ltimedout lo) (lev lo) (lshow lo) (lheld lo) (lsnap lo) v (ltaking lo).
+Definition lo_taking lo v := mkLo (ltemp lo) (lkept lo) (lidle lo) (lreg lo) (lb lo) (lbe lo) (lres lo) (lslot lo) (ltimedout lo) (lev lo) (lshow lo) (lheld lo) (lsnap lo) (lseen lo) v.
 
 Definition nonempty {A} (l : list A) : bool := match l with [] => false | _ => true end.
 
@@ -102,13 +116,14 @@ Definition eval_empty : list instr :=
   match GenQ.empty_queue_reads with
   | [0; 1] =>
       [IIf [RQ] (fun sh _ => negb (nonempty (ql sh)))
-           [IALoad EC; ILocal [] (fun _ sh lo => (sh, lo_be lo (GenQ.empty_queue true (lreg lo))))]
-           [ILocal [] (fun _ sh lo => (sh, lo_be lo false))]]
+           [ILocal [] (fun _ sh lo => (sh, lo_seen lo (negb (nonempty (ql sh)))));       (* ghost: the list test found it empty *)
+            IALoad EC; ILocal [] (fun _ sh lo => (sh, lo_be lo (GenQ.empty_queue true (lreg lo))))]
+           [ILocal [] (fun _ sh lo => (sh, lo_be (lo_seen lo false) false))]]
   | _ =>
       [IALoad EC;
        IIf [] (fun _ lo => GenQ.empty_queue true (lreg lo))
-           [ILocal [RQ] (fun _ sh lo => (sh, lo_be lo (negb (nonempty (ql sh)))))]
-           [ILocal [] (fun _ sh lo => (sh, lo_be lo false))]]
+           [ILocal [RQ] (fun _ sh lo => (sh, lo_be (lo_seen lo false) (negb (nonempty (ql sh)))))]
+           [ILocal [] (fun _ sh lo => (sh, lo_be (lo_seen lo false) false))]]
   end.
 
 (* doCanNotifyQueueAvailable() *)
@@ -141,7 +156,7 @@ Definition code_of (c : qapi) : list instr :=
             IUnlock FM]
            [];
        ILock QM;
-       ILocal [RQ] (fun _ sh lo => match lev lo with Some e => (sh_ql sh (ql sh ++ [e]), lo_ev lo None) | None => (sh, lo) end);
+       ILocal [RQ] (fun _ sh lo => match lev lo with Some e => (sh_settle (sh_ql sh (ql sh ++ [e])) e, lo_ev lo None) | None => (sh, lo) end);
        IUnlock QM]
       ++ eval_can_process
       ++ [IIf [] (fun _ lo => lb lo) [INotify] []; IDone]
@@ -182,7 +197,7 @@ Definition code_of (c : qapi) : list instr :=
                               let no := filter (fun e => negb (pverdict p e)) (ltemp lo) in
                               (dispatch_all t sh yes, lo_idle (lo_temp lo no) (length yes)));
                  IIf [] (fun _ lo => nonempty (ltemp lo))
-                     [ILock QM; ILocal [RQ] (fun _ sh lo => (sh_ql sh (ltemp lo ++ ql sh), lo_temp lo [])); IUnlock QM] [];
+                     [ILock QM; ILocal [RQ] (fun _ sh lo => (sh_putback (sh_ql sh (ltemp lo ++ ql sh)), lo_temp lo [])); IUnlock QM] [];
                  IIf [] (fun _ lo => negb (Nat.eqb (lidle lo) 0))
                      [ILock FM; ILocal [RF] (fun _ sh lo => (sh_fl sh (fl sh + lidle lo), lo)); IUnlock FM;
                       ILocal [] (fun _ sh lo => (sh, lo_res lo true))]
@@ -201,7 +216,7 @@ Definition code_of (c : qapi) : list instr :=
                               let '(yes, no) := split_until p (ltemp lo) in
                               (dispatch_all t sh yes, lo_idle (lo_temp lo no) (length yes)));
                  IIf [] (fun _ lo => nonempty (ltemp lo))
-                     [ILock QM; ILocal [RQ] (fun _ sh lo => (sh_ql sh (ltemp lo ++ ql sh), lo_temp lo [])); IUnlock QM] [];
+                     [ILock QM; ILocal [RQ] (fun _ sh lo => (sh_putback (sh_ql sh (ltemp lo ++ ql sh)), lo_temp lo [])); IUnlock QM] [];
                  IIf [] (fun _ lo => negb (Nat.eqb (lidle lo) 0))
                      [ILock FM; ILocal [RF] (fun _ sh lo => (sh_fl sh (fl sh + lidle lo), lo)); IUnlock FM;
                       ILocal [] (fun _ sh lo => (sh, lo_res lo true))]
@@ -213,7 +228,7 @@ Definition code_of (c : qapi) : list instr :=
   | ATake =>
       [IIf [RQ] (fun sh _ => nonempty (ql sh))
            [ILock QM;
-            ILocal [RQ] (fun _ sh lo => match ql sh with e :: r => (sh_ql sh r, lo_temp lo [e]) | [] => (sh, lo_temp lo []) end);
+            ILocal [RQ] (fun _ sh lo => match ql sh with e :: r => (sh_ql sh r, lo_taking (lo_temp lo [e]) true) | [] => (sh, lo_temp lo []) end);
             IUnlock QM;
             IIf [] (fun _ lo => nonempty (ltemp lo))
                 [ILocal [] (fun t sh lo => (fold_left (fun s e => sh_take s t e) (ltemp lo) sh, lo_show (lo_temp lo []) (hd_error (ltemp lo))));
@@ -238,7 +253,7 @@ Definition code_of (c : qapi) : list instr :=
   | AClear =>
       [IIf [RQ] (fun sh _ => nonempty (ql sh))
            [ILock QM;
-            ILocal [RQ] (fun _ sh lo => (sh_ql sh [], lo_temp lo (ql sh)));
+            ILocal [RQ] (fun _ sh lo => (sh_ql sh [], lo_taking (lo_temp lo (ql sh)) true));
             IUnlock QM;
             IIf [] (fun _ lo => nonempty (ltemp lo))
                 [ILocal [] (fun _ sh lo => (sh_clear sh (ltemp lo), lo_idle (lo_temp lo []) (length (ltemp lo))));
@@ -246,7 +261,8 @@ Definition code_of (c : qapi) : list instr :=
                 []]
            [];
        IDone]
-  | AEmptyQ => eval_empty ++ [ILocal [] (fun _ sh lo => (sh, lo_res lo (lbe lo))); IRes]
+  | AEmptyQ => [ILocal [] (fun _ sh lo => (sh, lo_snap lo (g_settled sh)))]      (* ghost: what was settled when the call began *)
+               ++ eval_empty ++ [ILocal [] (fun _ sh lo => (sh, lo_res lo (lbe lo))); IRes]
   | AWait => [ILock QM; IWaitLoop false; IUnlock QM; IDone]
   | AWaitFor => [ILock QM; IWaitLoop true; IUnlock QM; IRes]
   | ADisableBegin => [IAInc NC; IDone]
@@ -352,9 +368,9 @@ Definition perform (t : nat) (cfg : config) : config :=
                 | ILock FM => (sh_ofm (sh_log sh (CLock t FM)) (Some t), th1, ths cfg)
                 | IUnlock QM => (sh_oqm (sh_log sh (CUnlock t QM)) None, th1, ths cfg)
                 | IUnlock FM => (sh_ofm (sh_log sh (CUnlock t FM)) None, th1, ths cfg)
-                | IAInc EC => let v := (cec sh + 1)%Z in (sh_log (sh_ec sh v) (CAInc t EC v), th1, ths cfg)
+                | IAInc EC => let v := (cec sh + 1)%Z in (sh_log (sh_ec sh v) (CAInc t EC v), mkTh rest (calls th) (lo_held (lo th) (S (lheld (lo th)))) TRun, ths cfg)
                 | IAInc NC => let v := (cnc sh + 1)%Z in (sh_log (sh_nc sh v) (CAInc t NC v), th1, ths cfg)
-                | IADec EC => let v := (cec sh - 1)%Z in (sh_log (sh_ec sh v) (CADec t EC v), th1, ths cfg)
+                | IADec EC => let v := (cec sh - 1)%Z in (sh_log (sh_ec sh v) (CADec t EC v), mkTh rest (calls th) (lo_held (lo th) (pred (lheld (lo th)))) TRun, ths cfg)
                 | IADec NC => let v := (cnc sh - 1)%Z in (sh_log (sh_nc sh v) (CADec t NC v), th1, ths cfg)
                 | IALoad EC => (sh_log sh (CALoad t EC (cec sh)), mkTh rest (calls th) (lo_reg (lo th) (cec sh)) TRun, ths cfg)
                 | IALoad NC => (sh_log sh (CALoad t NC (cnc sh)), mkTh rest (calls th) (lo_reg (lo th) (cnc sh)) TRun, ths cfg)
@@ -429,7 +445,7 @@ Fixpoint run_sched (fuel : nat) (cfg : config) : config :=
   | S f => match sched_step cfg with Some c => run_sched f c | None => cfg end
   end.
 
-Definition sh0 : qshared := mkSh [] 0 0 0 None None 0 [] [] [] [] [].
+Definition sh0 : qshared := mkSh [] 0 0 0 None None 0 [] [] [] [] [] [] 0.
 
 (* every thread starts parked at its creation point and runs when first scheduled (harness: Start) *)
 Definition start_threads (progs : list (list qapi)) : list thread :=
